@@ -327,6 +327,42 @@ def initial_guesses(vc):
 import numpy as np
 
 
+@bounded("C06", "many_variables_native", native_runs=8)
+def many_variables_native(vc):
+    """normalisation for ANY number of variables and ANY widths / scales: the log-density of hundreds of variables (or of a few
+    with extreme scales) is the finite sum of the per-variable log-densities -- a product of hundreds of widths is not a float"""
+    import math
+    from inference.priors import UniformPrior, GaussianPrior, ExponentialPrior, JointPrior
+    seed = vc.int("seed", lo=0, hi=10 ** 6)
+    rng = np.random.default_rng(seed)
+    case = vc.choice("case", ["400_narrow", "350_wide", "2_tiny", "2_huge", "300_mixed"])
+    n, lw = {"400_narrow": (400, -1.0), "350_wide": (350, 3.0), "2_tiny": (2, -200.0), "2_huge": (2, 200.0), "300_mixed": (300, 0.0)}[case]
+    w = 10.0 ** (lw + rng.uniform(-0.3, 0.3, size=n)) if case != "300_mixed" else 10.0 ** rng.uniform(-3, 3, size=n)
+    lo = rng.normal(size=n) * w
+    th = lo + w * rng.uniform(0.05, 0.95, size=n)
+    U = UniformPrior(lower=lo, upper=lo + w, variable_indices=list(range(n)))
+    want_u = -math.fsum(math.log(u - l) for l, u in zip(lo, lo + w))
+    ok_u = math.isfinite(float(U(th))) and abs(float(U(th)) - want_u) <= 1e-9 * max(1.0, abs(want_u))
+    G = GaussianPrior(mean=lo, sigma=w, variable_indices=list(range(n)))
+    want_g = math.fsum(-0.5 * ((t - m_) / s_) ** 2 - math.log(s_) - 0.5 * math.log(2 * math.pi) for t, m_, s_ in zip(th, lo, w))
+    ok_g = math.isfinite(float(G(th))) and abs(float(G(th)) - want_g) <= 1e-9 * max(1.0, abs(want_g))
+    tp = np.abs(th) + w * 0.01
+    E = ExponentialPrior(beta=w, variable_indices=list(range(n)))
+    want_e = math.fsum(-t / b - math.log(b) for t, b in zip(tp, w))
+    ok_e = math.isfinite(float(E(tp))) and abs(float(E(tp)) - want_e) <= 1e-9 * max(1.0, abs(want_e))
+    vc.inputs["uniform"], vc.inputs["uniform_expected"] = float(U(th)), want_u
+    vc.ensures("uniform_log_density_is_finite_sum_over_variables", ok_u)
+    vc.ensures("gaussian_log_density_is_finite_sum_over_variables", ok_g)
+    vc.ensures("exponential_log_density_is_finite_sum_over_variables", ok_e)
+    # merged one-variable components: the joint prior is the sum of its components
+    k = min(n, 350)
+    comps = [UniformPrior(lower=lo[i], upper=lo[i] + w[i], variable_indices=[i]) for i in range(k)]
+    J = JointPrior(components=comps, n_variables=k)
+    want_j = -math.fsum(math.log((lo[i] + w[i]) - lo[i]) for i in range(k))
+    vc.ensures("joint_of_many_uniform_components_is_sum_of_components",
+               math.isfinite(float(J(th[:k]))) and abs(float(J(th[:k])) - want_j) <= 1e-9 * max(1.0, abs(want_j)))
+
+
 @bounded("C06", "priors_native", native_runs=40)
 def priors_native(vc):
     from scipy import stats
